@@ -10,6 +10,7 @@ import (
 	"fmt"
 	"hash"
 	"net"
+	"runtime"
 	"sort"
 	"sync"
 
@@ -17,6 +18,9 @@ import (
 )
 
 const fdBase = 1 << 20
+
+// Linux never lets SO_SNDBUF drop below about 4.5 KiB (SOCK_MIN_SNDBUF).
+const minSndBuf = 4608
 
 type sockKind int
 
@@ -100,6 +104,7 @@ type Kernel struct {
 	epfd     int
 	efd      int
 	active   bool
+	tickSet  bool
 	pollHash hash.Hash // proxy-visible interleaving hash (ready lists + syscall result classes)
 
 	allSocks []*Sock // every stream ever created, in creation order
@@ -357,6 +362,11 @@ func (k *Kernel) Writev(fd int, iovs [][]byte) (int, error) {
 		return total, nil
 	}
 	free := s.sndCap - len(s.out)
+	if len(s.out) == 0 && free < minSndBuf {
+		// an idle socket (nothing unacknowledged) always has at least the kernel's minimum send buffer free;
+		// smaller capacities model a nearly full buffer and only bite while earlier bytes are still queued
+		free = minSndBuf
+	}
 	if free <= 0 {
 		k.Stats.EAGAINWrite++
 		k.logf("write fd=%d sock=%d EAGAIN", fd, s.id)
@@ -367,7 +377,7 @@ func (k *Kernel) Writev(fd int, iovs [][]byte) (int, error) {
 	if n > free {
 		n = free
 		k.Stats.ShortWrites++
-	} else if n > 1 && !s.noShort && k.tape.Pct(k.Cfg.ShortWritePct) {
+	} else if n > 1 && !s.noShort && len(s.out) > 0 && k.tape.Pct(k.Cfg.ShortWritePct) {
 		n = n - k.tape.Choose(n)
 		if n < total {
 			k.Stats.ShortWrites++
@@ -514,7 +524,7 @@ func (k *Kernel) readyLocked() []readyEv {
 			if len(s.in) > 0 || s.peerFin || s.peerRst {
 				got |= unix.EPOLLIN
 			}
-			if len(s.out) < s.sndCap || s.peerRst {
+			if len(s.out) < s.sndCap || len(s.out) == 0 || s.peerRst {
 				got |= unix.EPOLLOUT
 			}
 		}
@@ -538,6 +548,10 @@ func (k *Kernel) AnyReady() bool {
 
 func (k *Kernel) EpollWait(epfd int, evs []unix.EpollEvent, msec int) (int, error) {
 	k.mu.Lock()
+	if !k.tickSet {
+		k.tickSet = true
+		runtime.VerifTickThisG() // the event loop is the goroutine whose clock readings must be distinct
+	}
 	k.parked = true
 	k.mu.Unlock()
 	<-k.grant
